@@ -207,21 +207,27 @@ class SingularityCutter(Worker):
         queue = deque()
         visited = dict([(v, False) for v in self.feat_detector.feature_vertices])
         parent = dict([(v, None) for v in self.feat_detector.feature_vertices])
+        # The border is already a cut: its vertices count as one single node of the tree. Otherwise two creases running from
+        # border to border are both entirely selected and the faces between them are cut loose from the rest of the mesh.
+        border_feat = [v for v in self.feat_detector.feature_vertices if self.input_mesh.is_vertex_on_border(v)]
         for v in closest_v:
             queue.append((v,None))
         while len(queue)>0:
             v,prev = queue.popleft()
             if visited[v] : continue
-            visited[v] = True
+            group = border_feat if self.input_mesh.is_vertex_on_border(v) else [v]
+            for w in group:
+                visited[w] = True
             parent[v] = prev
             if prev is not None:
                 e = self.input_mesh.connectivity.edge_id(v,prev)
                 edge_flags[e] = True
-            for e in self.input_mesh.connectivity.vertex_to_edges(v):
-                if e in self.feat_detector.feature_edges:
-                    nv = self.input_mesh.connectivity.other_edge_end(e,v)
-                    if not visited[nv]:
-                        queue.append((nv,v))
+            for w in group:
+                for e in self.input_mesh.connectivity.vertex_to_edges(w):
+                    if e in self.feat_detector.feature_edges:
+                        nv = self.input_mesh.connectivity.other_edge_end(e,w)
+                        if not visited[nv]:
+                            queue.append((nv,w))
         return edge_flags
 
     def _build_feature_regions(self, forbidden_edges):
